@@ -49,6 +49,7 @@ fn main() {
         "C03" => dgh::c03::run(&tier, seed),
         "C04" => dgh::c04::run(&tier, seed),
         "C17" => dgh::c17::run(&tier, seed),
+        "C18" => dgh::c18::run(&tier, seed),
         "C02" => dgh::walkprops::run_c02(&tier, seed),
         _ => {
           eprintln!("unknown property {}", prop);
